@@ -5,6 +5,7 @@ import (
 	"crypto/sha512"
 	"fmt"
 	"reflect"
+	"strings"
 	"testing"
 	"unsafe"
 
@@ -60,6 +61,11 @@ func TestPageInfoLayout(t *testing.T) {
 	s := &flat{
 		name: "sev/pageinfo", what: "SEV-SNP ABI PAGE_INFO: DIGEST_CUR[0:48] CONTENTS[48:96] LENGTH u16@96 PAGE_TYPE u8@98 IMI_PAGE@99 reserved@100 VMPL1..3_PERMS@101..103 GPA u64@104; fields set through reflection because they are unexported",
 		size: 0x70, abiSize: sev.SizeofPageInfo, flds: pageInfoFlds,
+		// IMI_PAGE is bit 0 of byte 0x63, bits 7:1 are reserved: a Put that refuses them is what the
+		// statement asks of reserved fields; one that copies the byte is what the repository does today
+		// (only 0 is ever produced through the exported route). Both stay silent.
+		canon:     map[int]uint64{4: 1},
+		mayRefuse: func(v []val) bool { return v[4].u&0xFE != 0 },
 		put: func(v []val, buf []byte) error {
 			var p sev.PageInfo
 			for i, f := range pageInfoFlds {
@@ -210,12 +216,17 @@ func vfd(name string) protoreflect.FieldDescriptor {
 
 // vmsaTableSelfCheck: the table names every proto field once, ranges are disjoint and increasing
 // and cover [0, 0x408) completely. A failure here is a harness/infra problem, not a violation.
-func vmsaTableSelfCheck(t *testing.T) {
+func vmsaTableSelfCheck(t *testing.T) bool {
 	seen := map[string]bool{}
 	pos := 0
 	for _, f := range vmsaTable {
-		if vfd(f.name) == nil || seen[f.name] {
-			t.Fatalf("harness: VMSA table field %q missing in proto or repeated", f.name)
+		if vfd(f.name) == nil {
+			ev.Note("sev/vmsa: proto field %q named by the APM offset table no longer exists; the VMSA sub-checks are inconclusive and were skipped", f.name)
+			ev.Class("sev/vmsa-fields", "inconclusive/proto-field-missing")
+			return false
+		}
+		if seen[f.name] {
+			t.Fatalf("harness: VMSA table field %q repeated", f.name)
 		}
 		seen[f.name] = true
 		if f.off != pos {
@@ -224,11 +235,14 @@ func vmsaTableSelfCheck(t *testing.T) {
 		pos = f.off + f.size
 	}
 	if len(seen) != vmsaDesc.Fields().Len() {
-		t.Fatalf("harness: VMSA proto has %d fields, table %d", vmsaDesc.Fields().Len(), len(seen))
+		ev.Note("sev/vmsa: the proto has %d fields, the APM offset table %d: fields the table does not know cannot be judged; the VMSA sub-checks are inconclusive and were skipped", vmsaDesc.Fields().Len(), len(seen))
+		ev.Class("sev/vmsa-fields", "inconclusive/proto-has-unknown-fields")
+		return false
 	}
 	if pos != 0x800 {
 		t.Fatalf("harness: VMSA table ends at %#x", pos)
 	}
+	return true
 }
 
 type segVal struct {
@@ -313,7 +327,9 @@ func genVmsa(t *rapid.T) (*vmsaCase, bool) {
 }
 
 func TestVmsaFields(t *testing.T) {
-	vmsaTableSelfCheck(t)
+	if !vmsaTableSelfCheck(t) {
+		return
+	}
 	const name = "sev/vmsa-fields"
 	ev.Rule(name, "VmcbSaveArea built through protoreflect from the harness offset table (APM vol.2 app. B / Linux sev_es_save_area): every segment (selector,attrib <2^16, limit, base), every u64/u32/u8 field boundary-biased, every reserved bytes field absent or its documented number of zero bytes; buffer 4096 or exactly 0x670 bytes pre-filled with 0xAA; oracle: PutVmsa succeeds, bytes [0,0x670) == table image, bytes beyond 0x670 untouched, then one drawn field is changed and exactly its table range changes to the LE value; non-trivial = some field at a range boundary; distinct = (probed field, value class)")
 	if sev.SizeofVmsa != vmsaSize || sev.SizeofVmcbSeg != 16 {
@@ -427,7 +443,9 @@ func TestVmsaFields(t *testing.T) {
 
 // Reserved ranges: absent / documented length zero / one non-zero byte at each position / wrong length.
 func TestVmsaReserved(t *testing.T) {
-	vmsaTableSelfCheck(t)
+	if !vmsaTableSelfCheck(t) {
+		return
+	}
 	const name = "sev/vmsa-reserved"
 	ev.Rule(name, "for each reserved bytes field R of documented size L (proto comment == gap between its neighbours in the APM layout): absent, L zero bytes (both must be accepted and leave the range zero in a 0xAA buffer), L bytes with byte i in {0x01,0x80} for EVERY i, and all-zero values of length 1, L-1, L+1, L+8, 2L (all must be refused); for reserved_8/reserved_9 (uint64): 0 accepted, 1, 2^63 refused; enumeration is complete; all cases non-trivial; distinct = (field, case)")
 	n := 0
@@ -549,7 +567,7 @@ func TestVmsaWidths(t *testing.T) {
 // encoded at its offset or refused; dropping it silently is what the property forbids.
 func TestVmsaTail(t *testing.T) {
 	const name = "sev/vmsa-tail"
-	ev.Rule(name, "valid_bitmap (16 bytes @0x3F0), x87_state_gpa (u64 @0x400), reserved_12 (1016 bytes @0x408): zero/absent must be accepted; non-zero values (single bit in first/last byte, all ones) and wrong lengths must be either encoded at the table offset (only possible below 0x670) or refused; oracle flags an accepted call whose output does not contain the value; complete enumeration of the listed cases; distinct = (field, case)")
+	ev.Rule(name, "valid_bitmap (16 bytes @0x3F0), x87_state_gpa (u64 @0x400), reserved_12 (1016 bytes @0x408): zero/absent must be accepted; all-zero values of a wrong length (valid_bitmap 1,8,15,17,24,32; reserved_12 1,8,616,1015,1017,1024,2032) must be refused; non-zero values (single bit in first/middle/last byte, all ones) must be either encoded at the table offset (only possible below 0x670) or refused; oracle flags an accepted call whose output does not contain the value; complete enumeration of the listed cases; distinct = (field, case)")
 	type tc struct {
 		f     string
 		label string
@@ -572,6 +590,17 @@ func TestVmsaTail(t *testing.T) {
 		{"reserved_12", "zero[1016]", func(v *spb.VmcbSaveArea) { v.Reserved_12 = make([]byte, 1016) }, true, 0x408, make([]byte, vmsaSize-0x408)},
 		{"reserved_12", "bit0", func(v *spb.VmcbSaveArea) { v.Reserved_12 = bit(1016, 0) }, false, -1, nil},
 		{"reserved_12", "last", func(v *spb.VmcbSaveArea) { v.Reserved_12 = bit(1016, 1015) }, false, -1, nil},
+		{"reserved_12", "middle", func(v *spb.VmcbSaveArea) { v.Reserved_12 = bit(1016, 0x670-0x408) }, false, -1, nil},
+	}
+	// wrong lengths (documented sizes: proto comments "16 bytes" / "1016 bytes" == the APM gaps): an
+	// all-zero value of another length is out of range exactly like for reserved_1..11
+	for _, l := range []int{1, 8, 15, 17, 24, 32} {
+		l := l
+		cases = append(cases, tc{"valid_bitmap", fmt.Sprintf("zero[%d]", l), func(v *spb.VmcbSaveArea) { v.ValidBitmap = make([]byte, l) }, false, -1, nil})
+	}
+	for _, l := range []int{1, 8, 0x670 - 0x408, 1015, 1017, 1024, 2032} {
+		l := l
+		cases = append(cases, tc{"reserved_12", fmt.Sprintf("zero[%d]", l), func(v *spb.VmcbSaveArea) { v.Reserved_12 = make([]byte, l) }, false, -1, nil})
 	}
 	for _, c := range cases {
 		v := &spb.VmcbSaveArea{}
@@ -584,10 +613,16 @@ func TestVmsaTail(t *testing.T) {
 			ev.Violation(t, "C18/in-range-refused/sev/vmsa", "%s %s refused: %v", c.f, c.label, err)
 		case c.zero && !bytes.Equal(out[c.off:c.off+len(c.want)], c.want):
 			ev.Violation(t, "C18/wrong-layout/sev/vmsa", "%s %s: range not zero", c.f, c.label)
+		case !c.zero && err == nil && strings.HasPrefix(c.label, "zero["):
+			ev.Violation(t, "C18/vmsa-tail-wrong-length-accepted", "PutVmsa accepted %s = %s; the field's documented size is %s bytes, so a value of another length is out of range and must be refused like a wrong-length reserved_1..11", c.f, c.label, map[string]string{"valid_bitmap": "16", "reserved_12": "1016"}[c.f])
 		case !c.zero && err == nil && (c.off < 0 || !bytes.Equal(out[c.off:c.off+len(c.want)], c.want)):
 			ev.Violation(t, keyVmsaTail, "PutVmsa accepted %s %s (non-zero) and wrote zeros for it: the value is neither encoded nor refused", c.f, c.label)
 		}
-		ev.Case(name, true, c.f+"/"+c.label, c.f+"/"+map[bool]string{true: "zero", false: "non-zero"}[c.zero], func() any { return c.f + " " + c.label })
+		cl := map[bool]string{true: "zero", false: "non-zero"}[c.zero]
+		if !c.zero && strings.HasPrefix(c.label, "zero[") {
+			cl = "wrong-length"
+		}
+		ev.Case(name, true, c.f+"/"+c.label, c.f+"/"+cl, func() any { return c.f + " " + c.label })
 	}
 	ev.Exhaustive(name)
 }
